@@ -66,6 +66,10 @@ V['C02'] = [
     ('Jacobian steps laid out (m, n)', CORE, '        if np.ndim(fxi) == 0:\n            return steps', '        if np.ndim(fxi) == 0:\n            return steps\n        if np.ndim(fxi) == 1:\n            return [np.outer(np.ones(np.shape(fxi)), h) for h in steps]', 'F', 'R-GATHER'),
 ]
 V['C03'] = [
+    ('central Jacobian differences on one work copy of x', FD, '        return np.array([(f(x + hi) - f(x - hi)) / 2.0 for hi in steps])',
+     '        x_k = np.array(x, dtype=float)\n        out = []\n        for k in range(n):\n            x_k[k] = x[k] + h[k]\n            f_plus = f(x_k)\n            x_k[k] = x[k] - h[k]\n            f_minus = f(x_k)\n            x_k[k] = x[k]\n            out.append((f_plus - f_minus) / 2.0)\n        return np.array(out)', 'F', 'R-ARGVIEW'),
+    ('central Jacobian differences on fresh copies of x', FD, '        return np.array([(f(x + hi) - f(x - hi)) / 2.0 for hi in steps])',
+     '        out = []\n        for k in range(n):\n            x_p, x_m = np.array(x, dtype=float), np.array(x, dtype=float)\n            x_p[k] = x[k] + h[k]\n            x_m[k] = x[k] - h[k]\n            out.append((f(x_p) - f(x_m)) / 2.0)\n        return np.array(out)', 'S', None),
     ('increments uses h[0]', FD, '            e_i[k] = h[k]\n            yield e_i', '            e_i[k] = h[0]\n            yield e_i', 'F', None),
     ('increments not reset', FD, '            yield e_i\n            e_i[k] = 0', '            yield e_i', 'F', None),
     ('original_shape swap removed', FD, '            original_shape[:2] = original_shape[1::-1]\n', '', 'F', 'R-AXES'),
@@ -141,6 +145,8 @@ V['C09'] = [
     ('method setter normalises the order', CORE, '    def method(self, method):\n        self.fd_rule.method = method\n', '    def method(self, method):\n        self.fd_rule.method = method\n        self.fd_rule.order = self.fd_rule.method_order\n', 'F', 'R-HISTORY'),
 ]
 V['C10'] = [
+    ('MaxStepGenerator: its defaults override the options of the caller', SG, '                             use_exact_steps=use_exact_steps,\n                             check_num_steps=check_num_steps, scale=scale)',
+     '                             use_exact_steps=False,\n                             check_num_steps=check_num_steps, scale=500)', 'F', 'R-OPTIONS'),
     ('zero filter keeps a step when any element is non zero', SG, '            if (np.abs(step) > 0).all():', '            if np.any(step != 0):', 'F', 'R-ZEROFILTER'),
     ('zero filter through np.all', SG, '            if (np.abs(step) > 0).all():', '            if np.all(np.abs(step) > 0):', 'S', None),
     ('Min generator ascending', SG, '        return range(self.num_steps - 1, -1, -1)', '        return range(self.num_steps)', 'F', None),
